@@ -399,7 +399,15 @@ class IGen:
         if k < 0.88 and depth == 0:
             # inside a block: no local-variable dump, only the context itself
             self.info.add("in_block")
-            return [["block", f"blk{self.next()}", self.site(incs, mods, data, depth + 1), False, False]]
+            body = self.site(incs, mods, data, depth + 1)
+            if r.random() < 0.6:
+                # names assigned earlier IN the block are part of the active context of an include
+                self.info.add("in_block_after_set")
+                pre = [["set", self.pick(["p", "q", "g", "wv"]), C(40 + self.next())]]
+                if r.random() < 0.3:
+                    pre = [["if", [[C(True), pre]], None]]
+                body = pre + [self.inc_stmt(incs, data) if r.random() < 0.6 else T("|")] + body
+            return [["block", f"blk{self.next()}", body, False, False]]
         if k < 0.95:
             return [["set", self.pick(["p", "p", "q", "g"]), C(20 + self.next())]]
         return [T(f"[m{self.next()}]")]
